@@ -336,6 +336,21 @@ func runC19(c *Ctx) {
 		c19Infer(c, c19WellFormed(r, leaves), true)
 		c19Infer(c, c19Malformed(r, leaves), false)
 	}
+	// every parameterised base with every hostile parameter string of a fixed list (lone / unbalanced / repeated quotes,
+	// separators without operands, stray brackets, over-long numbers), plain and under each wrapper
+	hostile := []string{"", "'", "''", ", '", "' '", "'a", "a'", "'a''", "\\", "\\'", "'\\'", ",", ",,", " ", "  ", "3,", "3,'", "3, '", "3,''", "3, ''", "3 ,'UTC", ",'UTC'",
+		"(", ")", "((", "))", ")(", "=", "'='", "'a'=", "=1", "'a'='b'", "'a'=1,", ",'a'=1", "'a'=1,,'b'=2", "-", "+", "-0", "+3", "0x3", "3.0", "3e0", " 3", "3 ",
+		"99999999999999999999999999999", "-99999999999999999999999999999", "\x00", "\xff", "String,", ",String", "String,,String"}
+	for _, base := range []string{"DateTime", "DateTime64", "Decimal", "Decimal32", "Decimal64", "Decimal128", "Decimal256", "Enum8", "Enum16", "FixedString", "Array", "Nullable", "LowCardinality", "Map", "Tuple", "Interval", "IntervalSecond"} {
+		for _, hp := range hostile {
+			t := base + "(" + hp + ")"
+			c19Infer(c, t, false)
+			c19Infer(c, "Array("+t+")", false)
+			c19Infer(c, "Nullable("+t+")", false)
+			c19Infer(c, "LowCardinality("+t+")", false)
+			R.Count("shape:hostile-parameter")
+		}
+	}
 	c19EnumDecode(c, r.Fork())
 	seqN := 300
 	if c.Thorough {
